@@ -90,6 +90,48 @@ def jit_method_family(cases):
   import numpy as np
   out = []
   for c in cases:
+    if c.get('kind') == 'helper':
+      # a lifted HELPER METHOD (not __call__) that creates auto-named sub-modules and is called several times from a compact __call__:
+      # the variable tree of init and the outputs of repeated applies must be those of the undecorated module
+      try:
+        def build_h(wrap, c=c):
+          class M(nn.Module):
+            def helper(self, x):
+              for _ in range(c['depth']):
+                x = nn.Dense(2, kernel_init=nn.initializers.constant(0.5), bias_init=nn.initializers.constant(0.25))(x) * (1.0 + 0.5 * len(self._state.autoname_cursor))
+              return x
+            if wrap is not None:
+              helper = wrap(helper)
+
+            @nn.compact
+            def __call__(self, x):
+              for _ in range(c['inside'] + 1):
+                x = self.helper(x)
+              return nn.Dense(2, kernel_init=nn.initializers.constant(-0.5))(x)
+          return M()
+        x = jnp.ones((1, 2))
+        plain = build_h(None)
+        y0, v = plain.init_with_output(jax.random.key(0), x)
+        # distinct values per layer, so that sharing a layer is visible in the output
+        v = jax.tree_util.tree_map_with_path(lambda kp, a: a + 0.01 * (sum(ord(ch) for ch in str(kp)) % 17), v)
+        want = np.asarray(plain.apply(v, x)).tolist()
+        res = {}
+        for name, wrap in (('jit', nn.jit), ('remat', nn.remat)):
+          m = build_h(wrap)
+          _, vi = m.init_with_output(jax.random.key(0), x)
+          outs = []
+          for _ in range(c['applies']):
+            try:
+              outs.append(np.asarray(m.apply(v, x)).tolist())
+            except Exception as e:  # pylint: disable=broad-except
+              outs.append('EXC:' + type(e).__name__)
+          res[name] = {'names': sorted(vi['params'].keys()), 'outs': outs}
+        out.append({'ok': {'helper': res, 'plain_names': sorted(v['params'].keys()), 'want': want}})
+      except Exception as e:  # pylint: disable=broad-except
+        import traceback
+        out.append({'err': type(e).__name__, 'tb': traceback.format_exc()[-600:]})
+      continue
+
     def build_class(use_jit, c=c):
       # a reused nn.jit CLASS whose instance is called several times in one forward pass; its children draw keys
       class Inner(nn.Module):
